@@ -176,6 +176,10 @@ class NSWorld:
                         if b.vec.items[i] == f[1]:
                             return It(b.vec, i)
                     return e
+        if k == 'OpCall' and c.get('op') == '()' and len(c['args']) == 2:
+            f = m.ev(c['args'][0])
+            if isinstance(f, tuple) and f and f[0] == 'FUNCTOR':
+                return int(m.ev(c['args'][1]) == f[1])         # FindStringPointerFunctor called by hand instead of through find_if
         if k == 'OpCall' and c.get('op') in ('=', '+=') and len(c['args']) == 2:
             t = strip_casts(c['args'][0])
             cur = m.ev_arg(t)
